@@ -27,10 +27,14 @@ def backing(slots, off, n):
 
 def classify(c, r):
     """None = implementation agrees with Arrow; else (why, finding_id | None)."""
-    op, t, got, arrow, exp = r["op"], r["t"], r["got"], r["arrow"], r["exp"]
-    if arrow["k"] != "ok" or arrow["v"] != exp:
-        raise vlib.ToolError(f"spec and Arrow disagree (spec bug): case {json.dumps(c)[:300]} op={op} type={t} arrow={arrow} spec={exp}")
-    want = arrow["v"]
+    op, t, got = r["op"], r["t"], r["got"]
+    if r.get("c"):          # compact record: the implementation failed, Arrow == spec was established by the harness
+        want = None
+    else:
+        arrow, exp = r["arrow"], r["exp"]
+        if arrow["k"] != "ok" or arrow["v"] != exp:
+            raise vlib.ToolError(f"spec and Arrow disagree (spec bug): case {json.dumps(c)[:300]} op={op} type={t} arrow={arrow} spec={exp}")
+        want = arrow["v"]
     if got["k"] == "ok" and got["v"] == want:
         return None
     n = c["len"]
